@@ -53,6 +53,7 @@ type Ctx struct {
 	prog            *Program
 	unitName        string
 	unitContract    *Contract
+	passNo          int // 1 on the first pass over the unit (loop write sets unknown), then 2, 3, ...
 	decls           []string
 	declared        map[string]Sort
 	dtDecls         map[string]bool
@@ -118,6 +119,7 @@ func NewCtx(p *Program, unit string) *Ctx {
 }
 
 func (c *Ctx) resetPass() {
+	c.passNo++
 	c.decls = nil
 	c.declared = map[string]Sort{}
 	c.asserts = nil
